@@ -233,7 +233,7 @@ PROPS = {
                     f"numpoly.{f}" for f in ("reshape", "transpose", "repeat", "tile", "expand_dims", "diag", "diagonal", "atleast_1d",
                                              "atleast_2d", "atleast_3d", "split", "array_split", "hsplit", "vsplit", "dsplit",
                                              "concatenate", "stack", "hstack", "vstack", "dstack", "moveaxis", "where", "choose",
-                                             "broadcast_arrays")],
+                                             "broadcast_arrays", "zeros", "ones", "zeros_like", "ones_like")],
                 explanation="ndpoly.__getitem__ (any index expression) rebuilds the result from the polynomial's own rows and names "
                 "with EVERY coefficient column indexed by the same index. The 15 raw movers (reshape, transpose, repeat, tile, "
                 "expand_dims, atleast_1/2/3d, diag, diagonal, split family) are proved to hand the whole raw storage of their operand "
